@@ -23,6 +23,7 @@ func checkC07(w *World, r *Report) {
 	r.Rule("C07.writes", "P4", "in the unlock function the only field of the sender's account that is stored is OriginalVesting, by subtraction from itself", 2)
 	r.Rule("C07.reduction", "P6", "every amount taken off the sender's OriginalVesting is either trunc(coin.Amount x OriginalVesting.AmountOf(denom) / GetVestingCoins(now).AmountOf(denom)) for the requested coin, or the constant rounding compensation; nothing else is subtracted; the compensation is decided by a comparison derived from the SDK's GetVestingCoins on the reduced account, not from a re-derived formula", 3)
 	r.Rule("C07.errprop", "P5", "= C05.errprop on the split / move trees: the unlock, the creation of the recipient and the transfer report their failure upward - a split whose transfer failed is never reported as done (the sender's vesting was already reduced and stored by then)", 5)
+	r.Rule("C07.nopanic", "P4", "= C20.inventory restricted to the split / move trees: every arithmetic or constructor call there that panics on some operand (Int64 conversions, divisions, coin subtraction, NewCoin) is discharged or vetted - a split of a large position must not abort", 8)
 	r.Rule("C07.move", "P6", "the move handlers pass LockedCoins(from) / its restriction to the requested denominations as the amount", 2)
 	if !ro.checkFloors(r) {
 		return
@@ -235,6 +236,29 @@ func checkC07(w *World, r *Report) {
 	shareRule(w, r, checkC05, "C05.errprop", "C07.errprop", func(o Obligation) bool {
 		return strings.Contains(o.Construct, "splitVestingCoins") || strings.Contains(o.Construct, "UnlockUnbondedContinuousVestingAccountCoins") || strings.Contains(o.Construct, "MoveAvailableVesting") || strings.Contains(o.Construct, "SplitVesting")
 	})
+	// ---------- C07.nopanic ----------
+	// "any amount from one unit up to what is locked can be split": no arithmetic on the split / move trees may panic for
+	// a large position (a conversion through int64, a division, a subtraction below zero) - the C20 inventory of these
+	// trees, shared
+	{
+		var hs []*ssa.Function
+		for _, a := range []string{"x/cfevesting/keeper.msgServer.SplitVesting", "x/cfevesting/keeper.msgServer.MoveAvailableVesting", "x/cfevesting/keeper.msgServer.MoveAvailableVestingByDenoms"} {
+			if h := w.Func(a); h != nil {
+				hs = append(hs, h)
+			}
+		}
+		onTree := map[string]bool{}
+		for f := range cg.Reach(hs) {
+			if w.isProdFunc(f) && moduleOfFunc(f) == "cfevesting" {
+				onTree[funcName(f)] = true
+			}
+		}
+		shareRule(w, r, checkC20, "C20.inventory", "C07.nopanic", func(o Obligation) bool {
+			i := strings.Index(o.Construct, " @ ")
+			j := strings.Index(o.Construct, " : ")
+			return i >= 0 && j > i && onTree[o.Construct[i+3:j]]
+		})
+	}
 	// ---------- C07.move ----------
 	tr := w.Tracer()
 	for _, anchor := range []string{"x/cfevesting/keeper.msgServer.MoveAvailableVesting", "x/cfevesting/keeper.msgServer.MoveAvailableVestingByDenoms"} {
